@@ -1,21 +1,30 @@
 (* Model of print_tokens() in main.c (the -E printer), as it stands after the fixes 0bad2d4
    (prints preprocessing tokens), 2fd0144 (separates tokens that were not adjacent in one source
-   text) and 3575287 (a `#` that is not a directive is not printed at the start of a line):
+   text), 3575287 (a `#` that is not a directive is not printed at the start of a line), f21a1fb
+   (a lone `\` token is not printed directly before a new-line) and 87479b9 (a first token that
+   begins with the bytes EF BB BF gets a space in front):
 
+     if (!tok->has_space && !strncmp(tok->loc, "\xef\xbb\xbf", 3)) fprintf(out, " ");
      int line = 1; Token *prev = NULL;
      for (; tok->kind != TK_EOF; tok = tok->next) {
        bool adjacent = prev && prev->file == tok->file && prev->loc + prev->len == tok->loc;
-       if (line > 1 && tok->at_bol && !equal(tok, "#")) fprintf(out, "\n");
+       if (line > 1 && tok->at_bol && !equal(tok, "#")) fprintf(out, equal(prev, "\\") ? " \n" : "\n");
        else if (tok->has_space || (prev && !adjacent))  fprintf(out, " ");
        fprintf(out, "%.*s", tok->len, tok->loc);
        line++; prev = tok;
      }
-     fprintf(out, "\n");
+     fprintf(out, prev && equal(prev, "\\") ? " \n" : "\n");
 
    What the C code looks at, per token: the spelling (loc, len), has_space, at_bol, and the pointer
    comparison `adjacent`.  Pointers are not modelled: the token carries the OUTCOME of that
    comparison as the boolean [e_adj] ("this token starts at the byte where its predecessor in the
-   list ends, in the same File").  `line > 1` and `prev != NULL` both mean "not the first token".
+   list ends, in the same File").  `line > 1` and `prev != NULL` both mean "not the first token"
+   ([first]); `equal(prev, "\\")` is carried along as [pb] (false while there is no prev).
+   The strncmp of the first statement looks at three bytes of the BUFFER at tok->loc; the model
+   looks at the first three bytes of the SPELLING ([bom_start]): the same whenever the token has
+   three bytes or more, and tokenize() cuts no shorter token beginning with EF (decode_utf8 demands
+   the two continuation bytes).  For an empty list tok is the TK_EOF token of the main file, whose
+   loc points at the terminating NUL: no space.
    The kind is not looked at (apart from TK_EOF = end of list); it is carried for the theorems.
 
    [relex] is what a tokenizer run over the printed text must give back, flags included; the
@@ -27,9 +36,14 @@ Local Open Scope N_scope.
 
 Record etok := { e_kind : tkind; e_text : list N; e_space : bool; e_bol : bool; e_adj : bool }.
 
-(* equal(tok, "#") *)
+(* equal(tok, "#"), equal(tok, "\\") *)
 Definition is_hash (t : list N) : bool :=
   match t with [c] => c =? 35 | _ => false end.
+Definition is_bslash (t : list N) : bool :=
+  match t with [c] => c =? 92 | _ => false end.
+(* !strncmp(tok->loc, "\xef\xbb\xbf", 3) *)
+Definition bom_start (t : list N) : bool :=
+  match t with a :: b :: c :: _ => (a =? 239) && (b =? 187) && (c =? 191) | _ => false end.
 
 (* the new-line branch of the printer *)
 Definition starts_line (first : bool) (t : etok) : bool :=
@@ -38,31 +52,41 @@ Definition starts_line (first : bool) (t : etok) : bool :=
 Definition wants_space (first : bool) (t : etok) : bool :=
   e_space t || (negb first && negb (e_adj t)).
 
-Definition sep_before (first : bool) (t : etok) : list N :=
-  if starts_line first t then [10] else if wants_space first t then [32] else [].
+(* the new-line the printer writes: " \n" behind a `\` token, "\n" otherwise *)
+Definition newline (pb : bool) : list N := if pb then [32; 10] else [10].
 
-Fixpoint eprint_from (first : bool) (ts : list etok) : list N :=
+Definition sep_before (first pb : bool) (t : etok) : list N :=
+  if starts_line first t then newline pb else if wants_space first t then [32] else [].
+
+Fixpoint eprint_from (first pb : bool) (ts : list etok) : list N :=
   match ts with
-  | [] => [10]
-  | t :: r => sep_before first t ++ e_text t ++ eprint_from false r
+  | [] => newline pb
+  | t :: r => sep_before first pb t ++ e_text t ++ eprint_from false (is_bslash (e_text t)) r
   end.
-Definition eprint (ts : list etok) : list N := eprint_from true ts.
+
+(* the statement in front of the loop *)
+Definition bom_guard (ts : list etok) : bool :=
+  match ts with t :: _ => negb (e_space t) && bom_start (e_text t) | [] => false end.
+
+Definition eprint (ts : list etok) : list N :=
+  (if bom_guard ts then [32] else []) ++ eprint_from true false ts.
 
 (* ---------- what reading the printed text back must give ---------- *)
 (* the token as the tokenizer sees it in the printed text: same kind and spelling; at the beginning
    of a line iff a new-line was printed before it (or it is the first token of the text); preceded
-   by white space iff the printer printed the space *)
-Definition relex_tok (first : bool) (t : etok) : tok :=
+   by white space iff a space was printed in front of it on its line ([sp0]: the space of the
+   guard in front of the loop; the space of " \n" is on the line before and does not count) *)
+Definition relex_tok (first sp0 : bool) (t : etok) : tok :=
   if starts_line first t
   then {| t_kind := e_kind t; t_text := e_text t; t_space := false; t_bol := true |}
-  else {| t_kind := e_kind t; t_text := e_text t; t_space := wants_space first t; t_bol := first |}.
+  else {| t_kind := e_kind t; t_text := e_text t; t_space := sp0 || wants_space first t; t_bol := first |}.
 
-Fixpoint relex_from (first : bool) (ts : list etok) : list tok :=
+Fixpoint relex_from (first sp0 : bool) (ts : list etok) : list tok :=
   match ts with
   | [] => []
-  | t :: r => relex_tok first t :: relex_from false r
+  | t :: r => relex_tok first sp0 t :: relex_from false false r
   end.
-Definition relex (ts : list etok) : list tok := relex_from true ts.
+Definition relex (ts : list etok) : list tok := relex_from true (bom_guard ts) ts.
 
 (* tokens that come out of ONE tokenizer run, as the printer sees them: two consecutive tokens of
    one text are adjacent iff nothing was skipped between them, i.e. neither flag is set *)
@@ -109,3 +133,22 @@ End WithTable.
 (* the open finding C19-leading-hash: the first token of the whole output is `#` *)
 Definition leading_hash (ts : list etok) : bool :=
   match ts with t :: _ => is_hash (e_text t) | [] => false end.
+
+(* ---------- spellings that phases 1-2 of a reader would alter ---------- *)
+(* Not looked at by the printer; hypotheses of the "survives phases 1-2" theorem.  A spelling is
+   [clean] when it holds no carriage return, no backslash directly followed by a new-line, and does
+   not end in a backslash unless it is the `\` token itself.  Spellings cut by tokenize() from a file
+   are clean (the file went through phases 1-2; only the punctuator `\` ends in a backslash). *)
+Fixpoint has_bs_nl (p : list N) : bool :=
+  match p with
+  | [] => false
+  | c :: r => ((c =? 92) && match r with d :: _ => d =? 10 | [] => false end) || has_bs_nl r
+  end.
+Fixpoint ends_in_bslash (p : list N) : bool :=
+  match p with
+  | [] => false
+  | c :: r => match r with [] => c =? 92 | _ :: _ => ends_in_bslash r end
+  end.
+Definition clean_text (a : list N) : bool :=
+  negb (existsb (fun c => c =? 13) a) && negb (has_bs_nl a) && (negb (ends_in_bslash a) || is_bslash a).
+Definition clean_tokens (ts : list etok) : bool := forallb (fun t => clean_text (e_text t)) ts.
